@@ -147,13 +147,22 @@ Holds(q, root, m) ==
           [] OTHER -> LET a == OpVal(q.l, root, m)  b == OpVal(q.r, root, m) IN
                       a.ok /\ b.ok /\ a.v.t = "num" /\ b.v.t = "num" /\ CmpNum(q.op, a.v.n, b.v.n)
 
+RECURSIVE HasNonSelfEq(_)
+HasNonSelfEq(x) == IF x.t = "opq" THEN ~x.seq ELSE \E i \in 1..Len(Kids(x)) : HasNonSelfEq(Kids(x)[i])
+
 \* 5.7(a): `path == path` where for some member both operands are absent -- outcome left open by C10
 RECURSIVE DetQ(_, _, _)
 DetQ(q, root, ms) ==
   CASE q.k \in {"and", "or"} -> DetQ(q.l, root, ms) /\ DetQ(q.r, root, ms)
     [] q.k = "paren" -> DetQ(q.q, root, ms)
     [] q.k = "cmp" /\ q.op \in {"==", "!="} /\ q.l.k # "lit" /\ q.r.k # "lit" ->
-         \A i \in 1..Len(ms) : OpVal(q.l, root, ms[i]).ok \/ OpVal(q.r, root, ms[i]).ok
+         \A i \in 1..Len(ms) :
+            LET a == OpVal(q.l, root, ms[i])  b == OpVal(q.r, root, ms[i]) IN
+            /\ a.ok \/ b.ok
+            \* reflect.DeepEqual short-cuts on identical slices/maps, so a container holding a value that is
+            \* not DeepEqual to itself (a func) is equal to itself but not to a copy: left open (C20 says
+            \* "deep equality", and nothing more, about such values)
+            /\ (a.ok /\ b.ok) => ~(IsCont(a.v) /\ HasNonSelfEq(a.v)) /\ ~(IsCont(b.v) /\ HasNonSelfEq(b.v))
     [] OTHER -> TRUE
 
 \* evaluate steps[i..] on cur (located at loc); `root` is the document for `$`-operands
